@@ -791,42 +791,42 @@ Qed.
 
 (* ------------------------------------------------------------------ *)
 
-Lemma ids_length : forall t, length (ids t) = length (entries t).
+Lemma ids_length : forall t, length (ids t) = length (tm_entries t).
 Proof. intros. apply map_length. Qed.
-Lemma times_length : forall t, length (times t) = length (entries t).
+Lemma times_length : forall t, length (times t) = length (tm_entries t).
 Proof. intros. apply map_length. Qed.
 
-Lemma s2t_multi_old : forall j t q, (2 <= length (entries t))%nat ->
-  tmap_sample_id_to_timestamp_old j t q = qres_of (interp_old j (phys t) (ids t) (times t) q).
+Lemma s2t_multi_old : forall j t q, (2 <= length (tm_entries t))%nat ->
+  tmap_sample_id_to_timestamp_old j t q = qres_of (interp_old j (tm_phys t) (ids t) (times t) q).
 Proof.
   intros j t q H. unfold tmap_sample_id_to_timestamp_old.
-  destruct (entries t) as [|[s0 u0] [|e2 l]] eqn:E; cbn [length] in H; try lia. reflexivity.
+  destruct (tm_entries t) as [|[s0 u0] [|e2 l]] eqn:E; cbn [length] in H; try lia. reflexivity.
 Qed.
 
-Lemma t2s_multi_old : forall j t q, (2 <= length (entries t))%nat ->
-  tmap_timestamp_to_sample_id_old j t q = qres_of (interp_old j (phys t) (times t) (ids t) q).
+Lemma t2s_multi_old : forall j t q, (2 <= length (tm_entries t))%nat ->
+  tmap_timestamp_to_sample_id_old j t q = qres_of (interp_old j (tm_phys t) (times t) (ids t) q).
 Proof.
   intros j t q H. unfold tmap_timestamp_to_sample_id_old.
-  destruct (entries t) as [|[s0 u0] [|e2 l]] eqn:E; cbn [length] in H; try lia. reflexivity.
+  destruct (tm_entries t) as [|[s0 u0] [|e2 l]] eqn:E; cbn [length] in H; try lia. reflexivity.
 Qed.
 
-Lemma s2t_single_old : forall j t q s0 u0, entries t = [(s0, u0)] ->
+Lemma s2t_single_old : forall j t q s0 u0, tm_entries t = [(s0, u0)] ->
   tmap_sample_id_to_timestamp_old j t q =
-  if rate_positive (rate t) then qres_of (single_id_to_time (rate t) s0 u0 q) else QErr TMAP_ERROR_UNAVAILABLE.
+  if rate_positive (tm_rate t) then qres_of (single_id_to_time (tm_rate t) s0 u0 q) else QErr TMAP_ERROR_UNAVAILABLE.
 Proof. intros j t q s0 u0 E. unfold tmap_sample_id_to_timestamp_old. rewrite E. reflexivity. Qed.
 
-Lemma t2s_single_old : forall j t q s0 u0, entries t = [(s0, u0)] ->
+Lemma t2s_single_old : forall j t q s0 u0, tm_entries t = [(s0, u0)] ->
   tmap_timestamp_to_sample_id_old j t q =
-  if rate_positive (rate t) then qres_of (single_time_to_id (rate t) s0 u0 q) else QErr TMAP_ERROR_UNAVAILABLE.
+  if rate_positive (tm_rate t) then qres_of (single_time_to_id (tm_rate t) s0 u0 q) else QErr TMAP_ERROR_UNAVAILABLE.
 Proof. intros j t q s0 u0 E. unfold tmap_timestamp_to_sample_id_old. rewrite E. reflexivity. Qed.
 
 Lemma qres_of_val : forall r v, qres_of r = QVal v -> r = TmOk v.
 Proof. intros [a|f] v H; cbn in H; inversion H; reflexivity. Qed.
 
 Lemma entries_cases : forall t,
-  entries t = [] \/ (exists s0 u0, entries t = [(s0, u0)]) \/ (2 <= length (entries t))%nat.
+  tm_entries t = [] \/ (exists s0 u0, tm_entries t = [(s0, u0)]) \/ (2 <= length (tm_entries t))%nat.
 Proof.
-  intros t. destruct (entries t) as [|[s0 u0] [|e2 l]]; [left; reflexivity|right; left; eauto|right; right; cbn; lia].
+  intros t. destruct (tm_entries t) as [|[s0 u0] [|e2 l]]; [left; reflexivity|right; left; eauto|right; right; cbn; lia].
 Qed.
 
 Lemma single_id_to_time_inv : forall r s0 u0 q v, rate_positive r = true ->
@@ -846,7 +846,7 @@ Proof.
 Qed.
 
 (* ================= junk independence, no over-read ================= *)
-Theorem tmap_old_junk_independent : forall j j' t q, (length (entries t) < phys t)%nat ->
+Theorem tmap_old_junk_independent : forall j j' t q, (length (tm_entries t) < tm_phys t)%nat ->
   tmap_sample_id_to_timestamp_old j t q = tmap_sample_id_to_timestamp_old j' t q /\
   tmap_timestamp_to_sample_id_old j t q = tmap_timestamp_to_sample_id_old j' t q.
 Proof.
@@ -855,8 +855,8 @@ Proof.
   - unfold tmap_sample_id_to_timestamp_old, tmap_timestamp_to_sample_id_old. rewrite E. split; reflexivity.
   - rewrite !(s2t_single_old _ t q s0 u0 E), !(t2s_single_old _ t q s0 u0 E). split; reflexivity.
   - rewrite !s2t_multi_old, !t2s_multi_old by assumption. unfold interp_old.
-    rewrite (search_junk_independent_lemma j j' (phys t) (ids t) q) by (rewrite ids_length; assumption).
-    rewrite (search_junk_independent_lemma j j' (phys t) (times t) q) by (rewrite times_length; assumption).
+    rewrite (search_junk_independent_lemma j j' (tm_phys t) (ids t) q) by (rewrite ids_length; assumption).
+    rewrite (search_junk_independent_lemma j j' (tm_phys t) (times t) q) by (rewrite times_length; assumption).
     split; reflexivity.
 Qed.
 
@@ -868,7 +868,7 @@ Proof.
   destruct (negb _); discriminate.
 Qed.
 
-Theorem tmap_old_no_oob : forall j t q, (length (entries t) < phys t)%nat ->
+Theorem tmap_old_no_oob : forall j t q, (length (tm_entries t) < tm_phys t)%nat ->
   tmap_sample_id_to_timestamp_old j t q <> QFault Tm_OOB_read /\
   tmap_timestamp_to_sample_id_old j t q <> QFault Tm_OOB_read.
 Proof.
@@ -880,9 +880,9 @@ Proof.
     split; destruct (rate_positive _); try discriminate;
       destruct (negb _); try discriminate; destruct (negb _); discriminate.
   - rewrite s2t_multi_old, t2s_multi_old by assumption. split.
-    + pose proof (interp_not_oob j (phys t) (ids t) (times t) q ltac:(rewrite ids_length; assumption)) as H.
+    + pose proof (interp_not_oob j (tm_phys t) (ids t) (times t) q ltac:(rewrite ids_length; assumption)) as H.
       destruct (interp_old _ _ _ _ _) as [a|f]; cbn; [discriminate|]. intros Hc. inversion Hc. subst f. apply H. reflexivity.
-    + pose proof (interp_not_oob j (phys t) (times t) (ids t) q ltac:(rewrite times_length; assumption)) as H.
+    + pose proof (interp_not_oob j (tm_phys t) (times t) (ids t) q ltac:(rewrite times_length; assumption)) as H.
       destruct (interp_old _ _ _ _ _) as [a|f]; cbn; [discriminate|]. intros Hc. inversion Hc. subst f. apply H. reflexivity.
 Qed.
 
@@ -906,35 +906,35 @@ Proof.
 Qed.
 
 Theorem tmap_eq_old_s2t : forall j t q,
-  sorted_lt (ids t) -> (length (entries t) < phys t)%nat ->
+  sorted_lt (ids t) -> (length (tm_entries t) < tm_phys t)%nat ->
   tmap_sample_id_to_timestamp t q = tmap_sample_id_to_timestamp_old j t q.
 Proof.
   intros j t q Hs Hph.
-  assert (P1 : (length (ids t) < phys t)%nat) by (rewrite ids_length; assumption).
+  assert (P1 : (length (ids t) < tm_phys t)%nat) by (rewrite ids_length; assumption).
   pose proof (ids_length t) as L1.
   unfold tmap_sample_id_to_timestamp, tmap_sample_id_to_timestamp_old.
-  destruct (entries t) as [|[s0 u0] [|e2 l]] eqn:E; try reflexivity.
+  destruct (tm_entries t) as [|[s0 u0] [|e2 l]] eqn:E; try reflexivity.
   cbn [length] in L1.
-  rewrite (interp_fixed_eq j (phys t) (ids t) (times t) q Hs ltac:(lia) P1). reflexivity.
+  rewrite (interp_fixed_eq j (tm_phys t) (ids t) (times t) q Hs ltac:(lia) P1). reflexivity.
 Qed.
 
 Theorem tmap_eq_old_t2s : forall j t q,
-  sorted_lt (times t) -> (length (entries t) < phys t)%nat ->
+  sorted_lt (times t) -> (length (tm_entries t) < tm_phys t)%nat ->
   tmap_timestamp_to_sample_id t q = tmap_timestamp_to_sample_id_old j t q.
 Proof.
   intros j t q Hs Hph.
-  assert (P2 : (length (times t) < phys t)%nat) by (rewrite times_length; assumption).
+  assert (P2 : (length (times t) < tm_phys t)%nat) by (rewrite times_length; assumption).
   pose proof (times_length t) as L2.
   unfold tmap_timestamp_to_sample_id, tmap_timestamp_to_sample_id_old.
-  destruct (entries t) as [|[s0 u0] [|e2 l]] eqn:E; try reflexivity.
+  destruct (tm_entries t) as [|[s0 u0] [|e2 l]] eqn:E; try reflexivity.
   cbn [length] in L2.
-  rewrite (interp_fixed_eq j (phys t) (times t) (ids t) q Hs ltac:(lia) P2). reflexivity.
+  rewrite (interp_fixed_eq j (tm_phys t) (times t) (ids t) q Hs ltac:(lia) P2). reflexivity.
 Qed.
 
 (* the current code = the old code run on a heap object with spare cells (where the old code was
    defined): the transfer principle for all theorems below *)
-Lemma unchecked_phys : forall t, (length (entries (tmap_unchecked t)) < phys (tmap_unchecked t))%nat.
-Proof. intros t. unfold tmap_unchecked. cbn [entries phys]. lia. Qed.
+Lemma unchecked_phys : forall t, (length (tm_entries (tmap_unchecked t)) < tm_phys (tmap_unchecked t))%nat.
+Proof. intros t. unfold tmap_unchecked. cbn [tm_entries tm_phys]. lia. Qed.
 
 Theorem tmap_cur_s2t : forall j t q, sorted_lt (ids t) ->
   tmap_sample_id_to_timestamp t q = tmap_sample_id_to_timestamp_old j (tmap_unchecked t) q.
@@ -953,14 +953,14 @@ Proof.
 Qed.
 
 (* the over-read, exact condition *)
-Theorem tmap_old_oob_iff : forall j t q, sorted_lt (ids t) -> (2 <= length (entries t))%nat ->
-  (phys t <= length (entries t))%nat ->
-  (tmap_sample_id_to_timestamp_old j t q = QFault Tm_OOB_read <-> nth (length (entries t) - 1) (ids t) 0 < q).
+Theorem tmap_old_oob_iff : forall j t q, sorted_lt (ids t) -> (2 <= length (tm_entries t))%nat ->
+  (tm_phys t <= length (tm_entries t))%nat ->
+  (tmap_sample_id_to_timestamp_old j t q = QFault Tm_OOB_read <-> nth (length (tm_entries t) - 1) (ids t) 0 < q).
 Proof.
   intros j t q Hs Hl Hph. rewrite s2t_multi_old by assumption.
-  pose proof (search_oob_iff_lemma j (phys t) (ids t) q Hs ltac:(rewrite ids_length; assumption) ltac:(rewrite ids_length; assumption)) as H.
+  pose proof (search_oob_iff_lemma j (tm_phys t) (ids t) q Hs ltac:(rewrite ids_length; assumption) ltac:(rewrite ids_length; assumption)) as H.
   rewrite ids_length in H. rewrite <- H. unfold interp_old.
-  destruct (search_old j (phys t) (ids t) q) as [c|f] eqn:E.
+  destruct (search_old j (tm_phys t) (ids t) q) as [c|f] eqn:E.
   - split; [|discriminate]. unfold interp_at_old.
     destruct (negb _); [discriminate|]. destruct (_ =? 0); [discriminate|]. destruct (negb _); discriminate.
   - cbn. split; intros H'; inversion H'; reflexivity.
@@ -968,8 +968,8 @@ Qed.
 
 (* ------------------------------------------------------------------ *)
 
-Lemma In_entries_nth : forall t s u, In (s, u) (entries t) ->
-  exists i, (i < length (entries t))%nat /\ nth i (ids t) 0 = s /\ nth i (times t) 0 = u.
+Lemma In_entries_nth : forall t s u, In (s, u) (tm_entries t) ->
+  exists i, (i < length (tm_entries t))%nat /\ nth i (ids t) 0 = s /\ nth i (times t) 0 = u.
 Proof.
   intros t s u H. destruct (In_nth _ _ (0, 0) H) as [i [Hi E]].
   exists i. split; [assumption|]. unfold ids, times.
@@ -978,20 +978,20 @@ Proof.
 Qed.
 
 Lemma gen_ok_s2t_old : forall t, sorted_lt (ids t) -> sorted_le (times t) ->
-  (2 <= length (entries t))%nat -> (length (entries t) < phys t)%nat ->
-  gen_ok (phys t) (ids t) (times t).
+  (2 <= length (tm_entries t))%nat -> (length (tm_entries t) < tm_phys t)%nat ->
+  gen_ok (tm_phys t) (ids t) (times t).
 Proof. intros t H1 H2 H3 H4. unfold gen_ok. rewrite ids_length, times_length. auto. Qed.
 
 Lemma gen_ok_t2s_old : forall t, sorted_lt (times t) -> sorted_lt (ids t) ->
-  (2 <= length (entries t))%nat -> (length (entries t) < phys t)%nat ->
-  gen_ok (phys t) (times t) (ids t).
+  (2 <= length (tm_entries t))%nat -> (length (tm_entries t) < tm_phys t)%nat ->
+  gen_ok (tm_phys t) (times t) (ids t).
 Proof. intros t H1 H2 H3 H4. unfold gen_ok. rewrite ids_length, times_length. auto using sorted_lt_le. Qed.
 
 (* ================= anchors ================= *)
 Theorem tmap_old_anchor_exact : forall j t s u,
-  sorted_lt (ids t) -> sorted_le (times t) -> (length (entries t) < phys t)%nat ->
-  all_in (2 ^ 62 - 1) (ids t) -> all_in (2 ^ 62 - 1) (times t) -> (0 < rate t)%Q ->
-  In (s, u) (entries t) ->
+  sorted_lt (ids t) -> sorted_le (times t) -> (length (tm_entries t) < tm_phys t)%nat ->
+  all_in (2 ^ 62 - 1) (ids t) -> all_in (2 ^ 62 - 1) (times t) -> (0 < tm_rate t)%Q ->
+  In (s, u) (tm_entries t) ->
   tmap_sample_id_to_timestamp_old j t s = QVal u /\
   (sorted_lt (times t) -> tmap_timestamp_to_sample_id_old j t u = QVal s).
 Proof.
@@ -1017,16 +1017,16 @@ Proof.
     cbn. split; reflexivity.
   - rewrite s2t_multi_old, t2s_multi_old by assumption. split.
     + rewrite <- Es, <- Eu.
-      rewrite (interp_anchor j (phys t) (ids t) (times t) i (gen_ok_s2t_old t Hsx Hsy E Hph) Hbx Hby) by (rewrite ids_length; assumption).
+      rewrite (interp_anchor j (tm_phys t) (ids t) (times t) i (gen_ok_s2t_old t Hsx Hsy E Hph) Hbx Hby) by (rewrite ids_length; assumption).
       reflexivity.
     + intros Hst. rewrite <- Es, <- Eu.
-      rewrite (interp_anchor j (phys t) (times t) (ids t) i (gen_ok_t2s_old t Hst Hsx E Hph) Hby Hbx) by (rewrite times_length; assumption).
+      rewrite (interp_anchor j (tm_phys t) (times t) (ids t) i (gen_ok_t2s_old t Hst Hsx E Hph) Hby Hbx) by (rewrite times_length; assumption).
       reflexivity.
 Qed.
 
 (* ================= monotone ================= *)
 Theorem tmap_old_monotone : forall j t q1 q2 v1 v2,
-  sorted_lt (ids t) -> sorted_le (times t) -> (length (entries t) < phys t)%nat ->
+  sorted_lt (ids t) -> sorted_le (times t) -> (length (tm_entries t) < tm_phys t)%nat ->
   tmap_sample_id_to_timestamp_old j t q1 = QVal v1 -> tmap_sample_id_to_timestamp_old j t q2 = QVal v2 ->
   q1 <= q2 -> v1 <= v2.
 Proof.
@@ -1034,22 +1034,22 @@ Proof.
   destruct (entries_cases t) as [E|[[s0 [u0 E]]|E]].
   - unfold tmap_sample_id_to_timestamp_old in H1. rewrite E in H1. discriminate.
   - rewrite (s2t_single_old _ t q1 s0 u0 E) in H1. rewrite (s2t_single_old _ t q2 s0 u0 E) in H2.
-    destruct (rate_positive (rate t)) eqn:Hr; [|discriminate].
+    destruct (rate_positive (tm_rate t)) eqn:Hr; [|discriminate].
     apply qres_of_val in H1. apply qres_of_val in H2.
     apply single_id_to_time_inv in H1; [|assumption]. apply single_id_to_time_inv in H2; [|assumption].
     subst v1 v2. unfold rate_positive in Hr.
-    assert (Z.quot ((q1 - s0) * Zpos (Qden (rate t)) * 2 ^ 30) (Qnum (rate t)) <=
-            Z.quot ((q2 - s0) * Zpos (Qden (rate t)) * 2 ^ 30) (Qnum (rate t))).
+    assert (Z.quot ((q1 - s0) * Zpos (Qden (tm_rate t)) * 2 ^ 30) (Qnum (tm_rate t)) <=
+            Z.quot ((q2 - s0) * Zpos (Qden (tm_rate t)) * 2 ^ 30) (Qnum (tm_rate t))).
     { apply Z.quot_le_mono; [lia|]. apply Z.mul_le_mono_nonneg_r; [lia|].
       apply Z.mul_le_mono_nonneg_r; lia. }
     lia.
   - rewrite s2t_multi_old in H1 by assumption. rewrite s2t_multi_old in H2 by assumption.
     apply qres_of_val in H1. apply qres_of_val in H2.
-    exact (interp_monotone j (phys t) (ids t) (times t) q1 q2 v1 v2 (gen_ok_s2t_old t Hsx Hsy E Hph) H1 H2 Hq).
+    exact (interp_monotone j (tm_phys t) (ids t) (times t) q1 q2 v1 v2 (gen_ok_s2t_old t Hsx Hsy E Hph) H1 H2 Hq).
 Qed.
 
 Theorem tmap_old_monotone_rev : forall j t q1 q2 v1 v2,
-  sorted_lt (ids t) -> sorted_lt (times t) -> (length (entries t) < phys t)%nat ->
+  sorted_lt (ids t) -> sorted_lt (times t) -> (length (tm_entries t) < tm_phys t)%nat ->
   tmap_timestamp_to_sample_id_old j t q1 = QVal v1 -> tmap_timestamp_to_sample_id_old j t q2 = QVal v2 ->
   q1 <= q2 -> v1 <= v2.
 Proof.
@@ -1057,17 +1057,17 @@ Proof.
   destruct (entries_cases t) as [E|[[s0 [u0 E]]|E]].
   - unfold tmap_timestamp_to_sample_id_old in H1. rewrite E in H1. discriminate.
   - rewrite (t2s_single_old _ t q1 s0 u0 E) in H1. rewrite (t2s_single_old _ t q2 s0 u0 E) in H2.
-    destruct (rate_positive (rate t)) eqn:Hr; [|discriminate].
+    destruct (rate_positive (tm_rate t)) eqn:Hr; [|discriminate].
     apply qres_of_val in H1. apply qres_of_val in H2.
     apply single_time_to_id_inv in H1. apply single_time_to_id_inv in H2.
     subst v1 v2. unfold rate_positive in Hr.
-    assert (Z.quot ((q1 - u0) * Qnum (rate t)) (2 ^ 30 * Zpos (Qden (rate t))) <=
-            Z.quot ((q2 - u0) * Qnum (rate t)) (2 ^ 30 * Zpos (Qden (rate t)))).
+    assert (Z.quot ((q1 - u0) * Qnum (tm_rate t)) (2 ^ 30 * Zpos (Qden (tm_rate t))) <=
+            Z.quot ((q2 - u0) * Qnum (tm_rate t)) (2 ^ 30 * Zpos (Qden (tm_rate t)))).
     { apply Z.quot_le_mono; [lia|]. apply Z.mul_le_mono_nonneg_r; lia. }
     lia.
   - rewrite t2s_multi_old in H1 by assumption. rewrite t2s_multi_old in H2 by assumption.
     apply qres_of_val in H1. apply qres_of_val in H2.
-    exact (interp_monotone j (phys t) (times t) (ids t) q1 q2 v1 v2 (gen_ok_t2s_old t Hsy Hsx E Hph) H1 H2 Hq).
+    exact (interp_monotone j (tm_phys t) (times t) (ids t) q1 q2 v1 v2 (gen_ok_t2s_old t Hsy Hsx E Hph) H1 H2 Hq).
 Qed.
 
 (* ------------------------------------------------------------------ *)
@@ -1095,20 +1095,20 @@ Qed.
 
 (* ================= linear interpolation between neighbours ================= *)
 Theorem tmap_old_interp_linear : forall j t i q,
-  sorted_lt (ids t) -> sorted_le (times t) -> (length (entries t) < phys t)%nat ->
+  sorted_lt (ids t) -> sorted_le (times t) -> (length (tm_entries t) < tm_phys t)%nat ->
   all_in (2 ^ 62 - 1) (ids t) -> all_in (2 ^ 62 - 1) (times t) ->
-  (i + 1 < length (entries t))%nat -> nth i (ids t) 0%Z <= q <= nth (S i) (ids t) 0%Z ->
+  (i + 1 < length (tm_entries t))%nat -> nth i (ids t) 0%Z <= q <= nth (S i) (ids t) 0%Z ->
   exists v, tmap_sample_id_to_timestamp_old j t q = QVal v /\
     v = nth i (times t) 0%Z + Qround_haz (inject_Z (q - nth i (ids t) 0%Z) * (inject_Z (nth (S i) (times t) 0%Z - nth i (times t) 0%Z) / inject_Z (nth (S i) (ids t) 0%Z - nth i (ids t) 0%Z)))%Q /\
     (Qabs (inject_Z v - (inject_Z (nth i (times t) 0%Z) + inject_Z (q - nth i (ids t) 0%Z) * (inject_Z (nth (S i) (times t) 0%Z - nth i (times t) 0%Z) / inject_Z (nth (S i) (ids t) 0%Z - nth i (ids t) 0%Z)))) <= 1 # 2)%Q /\
     nth i (times t) 0%Z <= v <= nth (S i) (times t) 0%Z.
 Proof.
   intros j t i q Hsx Hsy Hph Hbx Hby Hi Hq.
-  assert (E : (2 <= length (entries t))%nat) by lia.
+  assert (E : (2 <= length (tm_entries t))%nat) by lia.
   pose proof (Hsx i (S i) ltac:(rewrite ids_length; lia)) as Hds.
   pose proof (Hsy i (S i) ltac:(rewrite times_length; lia)) as Hdt.
   exists (ival (ids t) (times t) i q). rewrite s2t_multi_old by assumption.
-  rewrite (interp_linear_lemma j (phys t) (ids t) (times t) i q (gen_ok_s2t_old t Hsx Hsy E Hph) Hbx Hby) by (rewrite ?ids_length; assumption).
+  rewrite (interp_linear_lemma j (tm_phys t) (ids t) (times t) i q (gen_ok_s2t_old t Hsx Hsy E Hph) Hbx Hby) by (rewrite ?ids_length; assumption).
   split; [reflexivity|]. rewrite ival_as_Q by lia. split; [reflexivity|]. split; [apply half_Q|].
   rewrite <- ival_as_Q by lia. split.
   - apply ival_ge_left; lia.
@@ -1117,11 +1117,11 @@ Qed.
 
 (* ================= every query: the segment and the distance to the exact value ================= *)
 Theorem tmap_old_within_one_tick : forall j t q v,
-  sorted_lt (ids t) -> (length (entries t) < phys t)%nat ->
+  sorted_lt (ids t) -> (length (tm_entries t) < tm_phys t)%nat ->
   tmap_sample_id_to_timestamp_old j t q = QVal v ->
-  (exists s0 u0, entries t = [(s0, u0)] /\ (0 < rate t)%Q /\
-     v = u0 + Qtrunc ((inject_Z (q - s0) / rate t) * inject_Z (2 ^ 30))%Q /\
-     (Qabs (inject_Z v - (inject_Z u0 + (inject_Z (q - s0) / rate t) * inject_Z (2 ^ 30))) < 1)%Q) \/
+  (exists s0 u0, tm_entries t = [(s0, u0)] /\ (0 < tm_rate t)%Q /\
+     v = u0 + Qtrunc ((inject_Z (q - s0) / tm_rate t) * inject_Z (2 ^ 30))%Q /\
+     (Qabs (inject_Z v - (inject_Z u0 + (inject_Z (q - s0) / tm_rate t) * inject_Z (2 ^ 30))) < 1)%Q) \/
   (exists c, seg_ok (ids t) q c /\
      v = nth c (times t) 0%Z + Qround_haz (inject_Z (q - nth c (ids t) 0%Z) * (inject_Z (nth (S c) (times t) 0%Z - nth c (times t) 0%Z) / inject_Z (nth (S c) (ids t) 0%Z - nth c (ids t) 0%Z)))%Q /\
      (Qabs (inject_Z v - (inject_Z (nth c (times t) 0%Z) + inject_Z (q - nth c (ids t) 0%Z) * (inject_Z (nth (S c) (times t) 0%Z - nth c (times t) 0%Z) / inject_Z (nth (S c) (ids t) 0%Z - nth c (ids t) 0%Z)))) <= 1 # 2)%Q).
@@ -1131,13 +1131,13 @@ Proof.
   - unfold tmap_sample_id_to_timestamp_old in H. rewrite E in H. discriminate.
   - left. exists s0, u0. split; [assumption|].
     rewrite (s2t_single_old _ t q s0 u0 E) in H.
-    destruct (rate_positive (rate t)) eqn:Hr; [|discriminate].
+    destruct (rate_positive (tm_rate t)) eqn:Hr; [|discriminate].
     split; [apply rate_positive_iff; assumption|].
     apply qres_of_val in H. unfold single_id_to_time in H.
     destruct (negb _); [discriminate|]. destruct (negb _); [discriminate|]. inversion H.
     change TMAP_TIME_SECOND with (2 ^ 30). split; [reflexivity|apply lt1_Q].
   - right. rewrite s2t_multi_old in H by assumption. apply qres_of_val in H.
-    destruct (interp_has_seg j (phys t) (ids t) (times t) q Hsx ltac:(rewrite ids_length; assumption) ltac:(rewrite ids_length; assumption)) as [c [Hc Ec]].
+    destruct (interp_has_seg j (tm_phys t) (ids t) (times t) q Hsx ltac:(rewrite ids_length; assumption) ltac:(rewrite ids_length; assumption)) as [c [Hc Ec]].
     exists c. split; [assumption|]. rewrite Ec in H.
     apply interp_at_inv in H. destruct H as [_ ->]. unfold interp_k.
     split; [reflexivity|apply half_Q].
@@ -1145,32 +1145,32 @@ Qed.
 
 (* ================= extrapolation uses the nearest (first / last) segment ================= *)
 Theorem tmap_old_extrap_nearest_segment : forall j t q v,
-  sorted_lt (ids t) -> (length (entries t) < phys t)%nat -> (2 <= length (entries t))%nat ->
+  sorted_lt (ids t) -> (length (tm_entries t) < tm_phys t)%nat -> (2 <= length (tm_entries t))%nat ->
   tmap_sample_id_to_timestamp_old j t q = QVal v ->
   (q < nth 0 (ids t) 0%Z ->
      v = nth 0 (times t) 0%Z + Qround_haz (inject_Z (q - nth 0 (ids t) 0%Z) * (inject_Z (nth 1 (times t) 0%Z - nth 0 (times t) 0%Z) / inject_Z (nth 1 (ids t) 0%Z - nth 0 (ids t) 0%Z)))%Q) /\
-  (nth (length (entries t) - 1) (ids t) 0 <= q ->
-     let c := (length (entries t) - 2)%nat in
+  (nth (length (tm_entries t) - 1) (ids t) 0 <= q ->
+     let c := (length (tm_entries t) - 2)%nat in
      v = nth c (times t) 0%Z + Qround_haz (inject_Z (q - nth c (ids t) 0%Z) * (inject_Z (nth (S c) (times t) 0%Z - nth c (times t) 0%Z) / inject_Z (nth (S c) (ids t) 0%Z - nth c (ids t) 0%Z)))%Q).
 Proof.
   intros j t q v Hsx Hph E H.
   rewrite s2t_multi_old in H by assumption. apply qres_of_val in H.
   assert (L : (2 <= length (ids t))%nat) by (rewrite ids_length; assumption).
-  assert (P : (length (ids t) < phys t)%nat) by (rewrite ids_length; assumption).
+  assert (P : (length (ids t) < tm_phys t)%nat) by (rewrite ids_length; assumption).
   split.
-  - intros Hq. rewrite (interp_seg j (phys t) (ids t) (times t) q 0%nat Hsx L P (seg_ok_before _ _ Hsx L Hq)) in H.
+  - intros Hq. rewrite (interp_seg j (tm_phys t) (ids t) (times t) q 0%nat Hsx L P (seg_ok_before _ _ Hsx L Hq)) in H.
     apply interp_at_inv in H. destruct H as [_ ->]. reflexivity.
   - intros Hq c. subst c. rewrite <- ids_length in *.
-    rewrite (interp_seg j (phys t) (ids t) (times t) q _ Hsx L P (seg_ok_after _ _ Hsx L Hq)) in H.
+    rewrite (interp_seg j (tm_phys t) (ids t) (times t) q _ Hsx L P (seg_ok_after _ _ Hsx L Hq)) in H.
     apply interp_at_inv in H. destruct H as [_ ->]. reflexivity.
 Qed.
 
 (* ================= inverse ================= *)
 Theorem tmap_old_inverse_within_one_sample : forall j j' t q tm q',
-  sorted_lt (ids t) -> (length (entries t) < phys t)%nat ->
-  (forall i, (i + 1 < length (entries t))%nat ->
+  sorted_lt (ids t) -> (length (tm_entries t) < tm_phys t)%nat ->
+  (forall i, (i + 1 < length (tm_entries t))%nat ->
      nth (S i) (ids t) 0%Z - nth i (ids t) 0%Z <= nth (S i) (times t) 0%Z - nth i (times t) 0%Z) ->
-  (rate t <= inject_Z (2 ^ 30))%Q ->
+  (tm_rate t <= inject_Z (2 ^ 30))%Q ->
   tmap_sample_id_to_timestamp_old j t q = QVal tm ->
   tmap_timestamp_to_sample_id_old j' t tm = QVal q' ->
   -1 <= q' - q <= 1.
@@ -1179,19 +1179,19 @@ Proof.
   destruct (entries_cases t) as [E|[[s0 [u0 E]]|E]].
   - unfold tmap_sample_id_to_timestamp_old in H1. rewrite E in H1. discriminate.
   - rewrite (s2t_single_old _ t q s0 u0 E) in H1. rewrite (t2s_single_old _ t tm s0 u0 E) in H2.
-    destruct (rate_positive (rate t)) eqn:Hr; [|discriminate].
+    destruct (rate_positive (tm_rate t)) eqn:Hr; [|discriminate].
     apply qres_of_val in H1. apply qres_of_val in H2.
     apply single_id_to_time_inv in H1; [|assumption]. apply single_time_to_id_inv in H2.
     subst tm q'.
-    replace (u0 + Z.quot ((q - s0) * Z.pos (Qden (rate t)) * 2 ^ 30) (Qnum (rate t)) - u0)
-      with (Z.quot ((q - s0) * Z.pos (Qden (rate t)) * 2 ^ 30) (Qnum (rate t))) by ring.
+    replace (u0 + Z.quot ((q - s0) * Z.pos (Qden (tm_rate t)) * 2 ^ 30) (Qnum (tm_rate t)) - u0)
+      with (Z.quot ((q - s0) * Z.pos (Qden (tm_rate t)) * 2 ^ 30) (Qnum (tm_rate t))) by ring.
     unfold rate_positive in Hr. unfold Qle, inject_Z in Hrate. cbn [Qnum Qden] in Hrate.
-    pose proof (quot_round_trip (q - s0) (Qnum (rate t)) (2 ^ 30 * Z.pos (Qden (rate t))) ltac:(lia) ltac:(lia)) as R.
-    replace ((q - s0) * (2 ^ 30 * Z.pos (Qden (rate t)))) with ((q - s0) * Z.pos (Qden (rate t)) * 2 ^ 30) in R by ring.
+    pose proof (quot_round_trip (q - s0) (Qnum (tm_rate t)) (2 ^ 30 * Z.pos (Qden (tm_rate t))) ltac:(lia) ltac:(lia)) as R.
+    replace ((q - s0) * (2 ^ 30 * Z.pos (Qden (tm_rate t)))) with ((q - s0) * Z.pos (Qden (tm_rate t)) * 2 ^ 30) in R by ring.
     lia.
   - rewrite s2t_multi_old in H1 by assumption. rewrite t2s_multi_old in H2 by assumption.
     apply qres_of_val in H1. apply qres_of_val in H2.
-    apply (interp_inverse j j' (phys t) (ids t) (times t) q tm q' Hsx); try assumption;
+    apply (interp_inverse j j' (tm_phys t) (ids t) (times t) q tm q' Hsx); try assumption;
       rewrite ?ids_length, ?times_length; try assumption; try reflexivity.
     intros i Hi. rewrite ids_length in Hi. apply Hslope. assumption.
 Qed.
@@ -1256,12 +1256,12 @@ Qed.
 Definition A0 : nat := N.to_nat TMAP_ENTRIES_ALLOC_INIT.
 
 Definition reach_inv (t : tmap) : Prop :=
-  incr (ids t) /\ (length (entries t) <= alloc t)%nat /\
-  ((alloc t = A0 /\ phys t = A0) \/ (phys t = 2 * alloc t /\ 2 * A0 <= alloc t)%nat).
+  incr (ids t) /\ (length (tm_entries t) <= tm_alloc t)%nat /\
+  ((tm_alloc t = A0 /\ tm_phys t = A0) \/ (tm_phys t = 2 * tm_alloc t /\ 2 * A0 <= tm_alloc t)%nat).
 
 Lemma reach_inv_alloc : forall r, reach_inv (tmap_alloc r).
 Proof.
-  intros r. unfold reach_inv, tmap_alloc, ids, A0. cbn [entries alloc phys map length incr].
+  intros r. unfold reach_inv, tmap_alloc, ids, A0. cbn [tm_entries tm_alloc tm_phys map length incr].
   split; [exact I|]. split; [lia|]. left; split; reflexivity.
 Qed.
 
@@ -1272,19 +1272,19 @@ Lemma reach_inv_add : forall t s u, reach_inv t -> reach_inv (fst (tmap_add t s 
 Proof.
   intros t s u [Hi [Hl Hp]]. unfold tmap_add.
   pose proof A0_pos as HA.
-  assert (Hg : incr (ids (tmap_grow t)) /\ (length (entries (tmap_grow t)) < alloc (tmap_grow t))%nat /\
-          entries (tmap_grow t) = entries t /\
-          ((alloc (tmap_grow t) = A0 /\ phys (tmap_grow t) = A0) \/
-           (phys (tmap_grow t) = 2 * alloc (tmap_grow t) /\ 2 * A0 <= alloc (tmap_grow t))%nat)).
-  { unfold tmap_grow. destruct (alloc t <=? length (entries t))%nat eqn:E.
-    - unfold ids in *. cbn [entries alloc phys].
+  assert (Hg : incr (ids (tmap_grow t)) /\ (length (tm_entries (tmap_grow t)) < tm_alloc (tmap_grow t))%nat /\
+          tm_entries (tmap_grow t) = tm_entries t /\
+          ((tm_alloc (tmap_grow t) = A0 /\ tm_phys (tmap_grow t) = A0) \/
+           (tm_phys (tmap_grow t) = 2 * tm_alloc (tmap_grow t) /\ 2 * A0 <= tm_alloc (tmap_grow t))%nat)).
+  { unfold tmap_grow. destruct (tm_alloc t <=? length (tm_entries t))%nat eqn:E.
+    - unfold ids in *. cbn [tm_entries tm_alloc tm_phys].
       change (N.to_nat (SIZEOF_utc_summary_entry / TMAP_CELL_BYTES)) with 2%nat.
       split; [assumption|]. split; [lia|]. split; [reflexivity|]. right. lia.
     - split; [assumption|]. split; [lia|]. split; [reflexivity|]. assumption. }
   destruct Hg as [G1 [G2 [G3 G4]]].
-  destruct (add_last (entries (tmap_grow t)) s u) as [es rc] eqn:Ea. cbn [fst].
+  destruct (add_last (tm_entries (tmap_grow t)) s u) as [es rc] eqn:Ea. cbn [fst].
   destruct (add_last_spec _ _ _ _ _ Ea G1) as [S1 S2].
-  unfold reach_inv, ids. cbn [entries alloc phys]. split; [assumption|]. split; [lia|]. assumption.
+  unfold reach_inv, ids. cbn [tm_entries tm_alloc tm_phys]. split; [assumption|]. split; [lia|]. assumption.
 Qed.
 
 Lemma reach_inv_add_all : forall l t, reach_inv t -> reach_inv (tmap_add_all t l).
@@ -1294,10 +1294,10 @@ Proof.
 Qed.
 
 (* every map built by jls_tmap_alloc + any sequence of jls_tmap_add: ids strictly increasing,
-   and x[length] is outside the heap object exactly when the map holds ENTRIES_ALLOC_INIT entries *)
+   and x[length] is outside the heap object exactly when the map holds ENTRIES_ALLOC_INIT tm_entries *)
 Theorem tmap_reachable : forall r l, let t := tmap_add_all (tmap_alloc r) l in
-  sorted_lt (ids t) /\ (length (entries t) <= phys t)%nat /\
-  (length (entries t) = phys t <-> length (entries t) = N.to_nat TMAP_ENTRIES_ALLOC_INIT /\ alloc t = N.to_nat TMAP_ENTRIES_ALLOC_INIT).
+  sorted_lt (ids t) /\ (length (tm_entries t) <= tm_phys t)%nat /\
+  (length (tm_entries t) = tm_phys t <-> length (tm_entries t) = N.to_nat TMAP_ENTRIES_ALLOC_INIT /\ tm_alloc t = N.to_nat TMAP_ENTRIES_ALLOC_INIT).
 Proof.
   intros r l t. destruct (reach_inv_add_all l _ (reach_inv_alloc r)) as [Hi [Hl Hp]]. fold t in Hi, Hl, Hp.
   pose proof A0_pos. fold A0. split; [apply incr_sorted_lt; assumption|]. split; [lia|]. lia.
@@ -1389,10 +1389,10 @@ Definition ex_single : tmap := tmap_add_all (tmap_alloc (1000 # 1)) [(5000, 2 ^ 
 
 Lemma ex_map_ok :
   sorted_lt (ids ex_map) /\ sorted_lt (times ex_map) /\ sorted_le (times ex_map) /\
-  (length (entries ex_map) < phys ex_map)%nat /\
-  all_in (2 ^ 62 - 1) (ids ex_map) /\ all_in (2 ^ 62 - 1) (times ex_map) /\ (0 < rate ex_map)%Q /\
-  (rate ex_map <= inject_Z (2 ^ 30))%Q /\
-  (forall i, (i + 1 < length (entries ex_map))%nat ->
+  (length (tm_entries ex_map) < tm_phys ex_map)%nat /\
+  all_in (2 ^ 62 - 1) (ids ex_map) /\ all_in (2 ^ 62 - 1) (times ex_map) /\ (0 < tm_rate ex_map)%Q /\
+  (tm_rate ex_map <= inject_Z (2 ^ 30))%Q /\
+  (forall i, (i + 1 < length (tm_entries ex_map))%nat ->
      nth (S i) (ids ex_map) 0 - nth i (ids ex_map) 0 <= nth (S i) (times ex_map) 0 - nth i (times ex_map) 0).
 Proof.
   assert (S1 : sorted_lt (ids ex_map)) by (apply incr_sorted_lt, incrb_incr; vm_compute; reflexivity).
@@ -1402,7 +1402,7 @@ Proof.
   split; [apply all_in_b; vm_compute; reflexivity|].
   split; [apply all_in_b; vm_compute; reflexivity|].
   split; [reflexivity|]. split; [vm_compute; discriminate|].
-  intros i Hi. change (length (entries ex_map)) with 3%nat in Hi.
+  intros i Hi. change (length (tm_entries ex_map)) with 3%nat in Hi.
   destruct i as [|[|i]]; [apply Z.leb_le; vm_compute; reflexivity|apply Z.leb_le; vm_compute; reflexivity|lia].
 Qed.
 
@@ -1422,7 +1422,7 @@ Definition full_adds : list (Z * Z) :=
 Definition full_map : tmap := tmap_add_all (tmap_alloc (1000 # 1)) full_adds.
 
 Lemma full_map_facts :
-  length (entries full_map) = N.to_nat TMAP_ENTRIES_ALLOC_INIT /\ phys full_map = N.to_nat TMAP_ENTRIES_ALLOC_INIT /\
+  length (tm_entries full_map) = N.to_nat TMAP_ENTRIES_ALLOC_INIT /\ tm_phys full_map = N.to_nat TMAP_ENTRIES_ALLOC_INIT /\
   incrb (ids full_map) = true /\ incrb (times full_map) = true.
 Proof. vm_compute. repeat split; reflexivity. Qed.
 
@@ -1430,7 +1430,7 @@ Theorem tmap_old_oob_refuted :
   exists (t : tmap) (q : Z),
     t = tmap_add_all (tmap_alloc (1000 # 1)) full_adds /\
     sorted_lt (ids t) /\ sorted_lt (times t) /\
-    length (entries t) = N.to_nat TMAP_ENTRIES_ALLOC_INIT /\
+    length (tm_entries t) = N.to_nat TMAP_ENTRIES_ALLOC_INIT /\
     forall junk, tmap_sample_id_to_timestamp_old junk t q = QFault Tm_OOB_read /\
                  tmap_timestamp_to_sample_id_old junk t (2 ^ 58 + 1000 * 2 ^ 30) = QFault Tm_OOB_read.
 Proof.
@@ -1443,7 +1443,7 @@ Proof.
   - apply tmap_old_oob_iff; [exact S1|rewrite F1; vm_compute; lia|rewrite F1, F2; lia|].
     apply Z.ltb_lt. vm_compute. reflexivity.
   - rewrite t2s_multi_old by (rewrite F1; vm_compute; lia).
-    assert (H : search_old junk (phys full_map) (times full_map) (2 ^ 58 + 1000 * 2 ^ 30) = TmFault Tm_OOB_read).
+    assert (H : search_old junk (tm_phys full_map) (times full_map) (2 ^ 58 + 1000 * 2 ^ 30) = TmFault Tm_OOB_read).
     { apply search_oob_iff_lemma; [exact S2|rewrite times_length, F1; vm_compute; lia|rewrite times_length, F1, F2; lia|].
       apply Z.ltb_lt. vm_compute. reflexivity. }
     unfold interp_old. rewrite H. reflexivity.
@@ -1455,8 +1455,8 @@ Definition eqt_map : tmap :=
 
 Theorem tmap_old_equal_times_refuted :
   exists (t : tmap) (s u : Z),
-    sorted_lt (ids t) /\ sorted_le (times t) /\ (length (entries t) < phys t)%nat /\
-    In (s, u) (entries t) /\
+    sorted_lt (ids t) /\ sorted_le (times t) /\ (length (tm_entries t) < tm_phys t)%nat /\
+    In (s, u) (tm_entries t) /\
     tmap_sample_id_to_timestamp_old 0 t s = QVal u /\
     tmap_timestamp_to_sample_id_old 0 t u = QFault Tm_FP_invalid.
 Proof.
@@ -1530,10 +1530,10 @@ Proof.
   intros t q f H.
   pose proof (ids_length t) as L1. pose proof (times_length t) as L2.
   unfold tmap_sample_id_to_timestamp, tmap_timestamp_to_sample_id in H.
-  destruct (entries t) as [|[s0 u0] [|e2 l]] eqn:E.
+  destruct (tm_entries t) as [|[s0 u0] [|e2 l]] eqn:E.
   - destruct H; discriminate.
-  - destruct (rate_positive (rate t)); [|destruct H; discriminate].
-    destruct (single_fault (rate t) s0 u0 q f) as [A B].
+  - destruct (rate_positive (tm_rate t)); [|destruct H; discriminate].
+    destruct (single_fault (tm_rate t) s0 u0 q f) as [A B].
     destruct H as [H|H].
     + destruct (single_id_to_time _ _ _ _) as [v|f'] eqn:E1; cbn in H; [discriminate|]. inversion H. subst f'. apply A. reflexivity.
     + destruct (single_time_to_id _ _ _ _) as [v|f'] eqn:E1; cbn in H; [discriminate|]. inversion H. subst f'. apply B. reflexivity.
@@ -1547,8 +1547,8 @@ Qed.
 (* ---- the property theorems, transferred from the old-code proofs by tmap_cur_s2t / tmap_cur_t2s ---- *)
 Theorem tmap_anchor_exact : forall t s u,
   sorted_lt (ids t) -> sorted_le (times t) ->
-  all_in (2 ^ 62 - 1) (ids t) -> all_in (2 ^ 62 - 1) (times t) -> (0 < rate t)%Q ->
-  In (s, u) (entries t) ->
+  all_in (2 ^ 62 - 1) (ids t) -> all_in (2 ^ 62 - 1) (times t) -> (0 < tm_rate t)%Q ->
+  In (s, u) (tm_entries t) ->
   tmap_sample_id_to_timestamp t s = QVal u /\
   (sorted_lt (times t) -> tmap_timestamp_to_sample_id t u = QVal s).
 Proof.
@@ -1582,7 +1582,7 @@ Qed.
 Theorem tmap_interp_linear : forall t i q,
   sorted_lt (ids t) -> sorted_le (times t) ->
   all_in (2 ^ 62 - 1) (ids t) -> all_in (2 ^ 62 - 1) (times t) ->
-  (i + 1 < length (entries t))%nat -> nth i (ids t) 0 <= q <= nth (S i) (ids t) 0 ->
+  (i + 1 < length (tm_entries t))%nat -> nth i (ids t) 0 <= q <= nth (S i) (ids t) 0 ->
   exists v, tmap_sample_id_to_timestamp t q = QVal v /\
     v = nth i (times t) 0 + Qround_haz (inject_Z (q - nth i (ids t) 0%Z) * (inject_Z (nth (S i) (times t) 0%Z - nth i (times t) 0%Z) / inject_Z (nth (S i) (ids t) 0%Z - nth i (ids t) 0%Z)))%Q /\
     (Qabs (inject_Z v - (inject_Z (nth i (times t) 0%Z) + inject_Z (q - nth i (ids t) 0%Z) * (inject_Z (nth (S i) (times t) 0%Z - nth i (times t) 0%Z) / inject_Z (nth (S i) (ids t) 0%Z - nth i (ids t) 0%Z)))) <= 1 # 2)%Q /\
@@ -1596,9 +1596,9 @@ Qed.
 Theorem tmap_within_one_tick : forall t q v,
   sorted_lt (ids t) ->
   tmap_sample_id_to_timestamp t q = QVal v ->
-  (exists s0 u0, entries t = [(s0, u0)] /\ (0 < rate t)%Q /\
-     v = u0 + Qtrunc ((inject_Z (q - s0) / rate t) * inject_Z (2 ^ 30))%Q /\
-     (Qabs (inject_Z v - (inject_Z u0 + (inject_Z (q - s0) / rate t) * inject_Z (2 ^ 30))) < 1)%Q) \/
+  (exists s0 u0, tm_entries t = [(s0, u0)] /\ (0 < tm_rate t)%Q /\
+     v = u0 + Qtrunc ((inject_Z (q - s0) / tm_rate t) * inject_Z (2 ^ 30))%Q /\
+     (Qabs (inject_Z v - (inject_Z u0 + (inject_Z (q - s0) / tm_rate t) * inject_Z (2 ^ 30))) < 1)%Q) \/
   (exists c, seg_ok (ids t) q c /\
      v = nth c (times t) 0 + Qround_haz (inject_Z (q - nth c (ids t) 0%Z) * (inject_Z (nth (S c) (times t) 0%Z - nth c (times t) 0%Z) / inject_Z (nth (S c) (ids t) 0%Z - nth c (ids t) 0%Z)))%Q /\
      (Qabs (inject_Z v - (inject_Z (nth c (times t) 0%Z) + inject_Z (q - nth c (ids t) 0%Z) * (inject_Z (nth (S c) (times t) 0%Z - nth c (times t) 0%Z) / inject_Z (nth (S c) (ids t) 0%Z - nth c (ids t) 0%Z)))) <= 1 # 2)%Q).
@@ -1608,12 +1608,12 @@ Proof.
 Qed.
 
 Theorem tmap_extrap_nearest_segment : forall t q v,
-  sorted_lt (ids t) -> (2 <= length (entries t))%nat ->
+  sorted_lt (ids t) -> (2 <= length (tm_entries t))%nat ->
   tmap_sample_id_to_timestamp t q = QVal v ->
   (q < nth 0 (ids t) 0 ->
      v = nth 0 (times t) 0 + Qround_haz (inject_Z (q - nth 0 (ids t) 0%Z) * (inject_Z (nth 1 (times t) 0%Z - nth 0 (times t) 0%Z) / inject_Z (nth 1 (ids t) 0%Z - nth 0 (ids t) 0%Z)))%Q) /\
-  (nth (length (entries t) - 1) (ids t) 0 <= q ->
-     let c := (length (entries t) - 2)%nat in
+  (nth (length (tm_entries t) - 1) (ids t) 0 <= q ->
+     let c := (length (tm_entries t) - 2)%nat in
      v = nth c (times t) 0 + Qround_haz (inject_Z (q - nth c (ids t) 0%Z) * (inject_Z (nth (S c) (times t) 0%Z - nth c (times t) 0%Z) / inject_Z (nth (S c) (ids t) 0%Z - nth c (ids t) 0%Z)))%Q).
 Proof.
   intros t q v Hsx E H. rewrite (tmap_cur_s2t 0 t q Hsx) in H.
@@ -1622,9 +1622,9 @@ Qed.
 
 Theorem tmap_inverse_within_one_sample : forall t q tm q',
   sorted_lt (ids t) ->
-  (forall i, (i + 1 < length (entries t))%nat ->
+  (forall i, (i + 1 < length (tm_entries t))%nat ->
      nth (S i) (ids t) 0 - nth i (ids t) 0 <= nth (S i) (times t) 0 - nth i (times t) 0) ->
-  (rate t <= inject_Z (2 ^ 30))%Q ->
+  (tm_rate t <= inject_Z (2 ^ 30))%Q ->
   tmap_sample_id_to_timestamp t q = QVal tm ->
   tmap_timestamp_to_sample_id t tm = QVal q' ->
   -1 <= q' - q <= 1.
@@ -1649,7 +1649,7 @@ Lemma ex_map_values :
   tmap_timestamp_to_sample_id eqt_map (2 ^ 40 + 5) = QVal 0.
 Proof. vm_compute. repeat split; reflexivity. Qed.
 
-Theorem tmap_eq_old : forall j t q, (length (entries t) < phys t)%nat ->
+Theorem tmap_eq_old : forall j t q, (length (tm_entries t) < tm_phys t)%nat ->
   (sorted_lt (ids t) -> tmap_sample_id_to_timestamp t q = tmap_sample_id_to_timestamp_old j t q) /\
   (sorted_lt (times t) -> tmap_timestamp_to_sample_id t q = tmap_timestamp_to_sample_id_old j t q).
 Proof.
@@ -1658,7 +1658,7 @@ Proof.
   - exact (tmap_eq_old_t2s j t q Hs Hph).
 Qed.
 
-(* the map holding exactly ENTRIES_ALLOC_INIT entries, queried beyond its last anchor: no tm_fault *)
+(* the map holding exactly ENTRIES_ALLOC_INIT tm_entries, queried beyond its last anchor: no tm_fault *)
 Lemma full_map_values :
   exists t : tmap,
     t = tmap_add_all (tmap_alloc (1000 # 1)) full_adds /\
